@@ -6,6 +6,7 @@
      new <Class> <id> <kwargs-dict>          -> ok <object | !Error>
      rt  <Class> <id> <object>               -> ok <construct> <to_dict> <from_dict> <caller dict after> <to_dict again>
      fd|fdold <Class> <id> <origin-id> <v>   -> ok <from_dict> <caller value after> <to_dict of the result>
+     fdp <Class> <id> <origin-id> <dateparse answer> <v>   -> the same, dateutil's answer given as an oracle
      schema <Class>                          -> ok name|type|default|elided ...
      enum <A-D>                              -> ok <member values>
    <id> = hex of the id the oracle answers with, or !Error if computing it raises. *)
@@ -139,6 +140,15 @@ let () = serve (function
            let d2 = (match r with Ok o2 -> show (to_dict_x o2) | Err e -> show_err e) in
            "ok " ^ show_res r0 ^ " " ^ show d ^ " " ^ show_res r ^ " " ^ show after ^ " " ^ d2
        | _ -> "err bad_request")
+  | ["fdp"; cn; oid; orig; dpw; w] ->
+      (* dpw: what dateutil.parser.parse answers for the textual ctime of this dictionary (a value or !Error) *)
+      let v = parse w in
+      let dp = if String.length dpw > 0 && dpw.[0] = '!' then Err (err_of_string dpw) else Ok (parse dpw) in
+      let (r, after) =
+        if cn = "BaseContent" then fd_BaseContent_xd (oracle_id oid) dp v
+        else from_dict_xd (oracle_id oid) (oracle_id orig) dp (class_of_name cn) v in
+      let d1 = (match r with Ok o -> show (to_dict_x o) | Err e -> show_err e) in
+      "ok " ^ show_res r ^ " " ^ show after ^ " " ^ d1
   | [op; cn; oid; orig; w] when op = "fd" || op = "fdold" ->
       let v = parse w in
       let (r, after) =
